@@ -123,7 +123,14 @@ class NpProxy:
         return a
 
     @staticmethod
+    def _keeps_dtype(a, dtype):
+        """integer / bool prototypes keep their dtype (numpy semantics the code under test may rely on or trip over)"""
+        return dtype is None and isinstance(a, numpy.ndarray) and a.dtype.kind in "iub"
+
+    @staticmethod
     def zeros_like(a, dtype=None, **kw):
+        if NpProxy._keeps_dtype(a, dtype):
+            return numpy.zeros_like(a, **kw)
         r = numpy.empty(numpy.shape(a), dtype=object)
         r.fill(0.0)
         return r
@@ -145,12 +152,16 @@ class NpProxy:
 
     @staticmethod
     def ones_like(a, dtype=None, **kw):
+        if NpProxy._keeps_dtype(a, dtype):
+            return numpy.ones_like(a, **kw)
         r = numpy.empty(numpy.shape(a), dtype=object)
         r.fill(1.0)
         return r
 
     @staticmethod
     def empty_like(a, dtype=None, **kw):
+        if NpProxy._keeps_dtype(a, dtype):
+            return numpy.zeros_like(a, **kw)
         r = numpy.empty(numpy.shape(a), dtype=object)
         r.fill(0.0)
         return r
@@ -187,6 +198,12 @@ class NpProxy:
         return numpy.abs(x, *a, **k)
 
     absolute = abs
+
+    @staticmethod
+    def floor(x, *a, **k):
+        if isinstance(x, Sym) or type(x).__name__ == "SymFP":
+            return x.__floor__()
+        return numpy.floor(x, *a, **k)
 
     @staticmethod
     def arctan2(*a, **k):
